@@ -1209,8 +1209,9 @@ func (x *scanCtx) c10() {
 			return
 		}
 	}
-	// does not hold back the removal of other eligible nodes
-	if !anyAnnotated || !a.Clean || a.Locked || a.Kind != kNormal && a.Kind != kIdleZero || len(a.Force) > 0 {
+	// does not hold back the removal of other eligible nodes; the same "the reaper must run" situation also
+	// decides C12's "judged only from its own pods": a foreign pod bound to an eligible node changes nothing
+	if !a.Clean || a.Locked || a.Kind != kNormal && a.Kind != kIdleZero || len(a.Force) > 0 {
 		return
 	}
 	if a.Bands["up"] || a.StarveMay || a.AgeMay {
@@ -1245,18 +1246,51 @@ func (x *scanCtx) c10() {
 			return // the documented not-in-group stop takes precedence
 		}
 	}
-	x.check("c10-holds-back")
-	x.s.stats.Probe("annotated node next to an eligible neighbour")
 	done := map[string]bool{}
 	for _, c := range a.Terminates {
 		done[a.ByInst[c.Target]] = true
 	}
+	// pods of the cached population that are bound to a node of this group but do not belong to the group
+	own := map[string]bool{}
+	for _, p := range gs.Pods {
+		own[p.Name] = true
+	}
+	foreignOn := map[string]string{}
+	for _, p := range gs.AllPods {
+		if p.Spec.NodeName != "" && !own[p.Name] && !isDaemonSetPod(p) {
+			foreignOn[p.Spec.NodeName] = p.Name
+		}
+	}
+	for _, n := range eligible {
+		if fp, ok := foreignOn[n.Name]; ok {
+			x.check("c12-foreign-pod")
+			x.s.stats.Probe("another group's pod sits on an eligible node of this group")
+			if !done[n.Name] {
+				x.viol("C12", "c12-foreign-pod", "", "", fmt.Sprintf("node %s is eligible for removal judged from this group's own pods, but was left alone while pod %s of another group is bound to it", n.Name, fp))
+				break
+			}
+		}
+	}
+	if !anyAnnotated {
+		return
+	}
+	x.check("c10-holds-back")
+	x.s.stats.Probe("annotated node next to an eligible neighbour")
 	for _, n := range eligible {
 		if !done[n.Name] {
 			x.viol("C10", "c10-holds-back", "", "", fmt.Sprintf("eligible unannotated node %s was not removed in a scan where an annotated tainted node is present", n.Name))
 			return
 		}
 	}
+}
+
+func isDaemonSetPod(p *v1.Pod) bool {
+	for _, o := range p.OwnerReferences {
+		if o.Kind == "DaemonSet" {
+			return true
+		}
+	}
+	return false
 }
 
 // ---- C11 ------------------------------------------------------------------------------
@@ -1951,17 +1985,34 @@ func (s *Supervisor) checkOutcome(rec *ScanRecord) {
 	if d := rec.End.Sub(rec.Start); d > budget {
 		s.violate(Violation{Property: "C20", Rule: "c20-wedge", Site: "scan-duration", Scan: rec.Index, Life: rec.Life, Detail: fmt.Sprintf("scan took %v of virtual time, explained budget %v", d, budget)})
 	}
-	if o.Exit {
-		// logrus Fatal: only the third consecutive fleet failure is documented
-		fails := 0
-		for _, c := range calls {
-			if c.Op == OpTerminateEC2 || c.Op == OpCreateFleet {
-				fails++
+	// consecutive failed fleet scale-ups per group (the documented reason for a process exit is the third)
+	exitGroup := ""
+	for _, gs := range rec.Groups {
+		failed, succeeded := false, false
+		for _, c := range gs.Calls {
+			if c.Op == OpTerminateEC2 {
+				failed = true
+			}
+			if c.Op == OpAttach && c.Err == "" {
+				succeeded = true
 			}
 		}
-		if fails == 0 {
-			s.violate(Violation{Property: "C20", Rule: "c20-stop", Sub: "exit", Scan: rec.Index, Life: rec.Life, Detail: "the process exited (log.Fatal) in a scan without any fleet activity"})
-		} else {
+		if failed {
+			s.fleetFailures[gs.Group]++
+			exitGroup = gs.Group
+		} else if succeeded {
+			s.fleetFailures[gs.Group] = 0
+		}
+	}
+	if o.Exit {
+		switch {
+		case exitGroup == "":
+			s.violate(Violation{Property: "C20", Rule: "c20-stop", Sub: "exit", Scan: rec.Index, Life: rec.Life, Detail: "the process exited (log.Fatal) in a scan without any failed fleet scale-up"})
+		case s.fleetFailures[exitGroup] < 3:
+			d := fmt.Sprintf("the process exited while group %s met only its consecutive fleet failure number %d (failures so far per group: %v)", exitGroup, s.fleetFailures[exitGroup], s.fleetFailures)
+			s.violate(Violation{Property: "C20", Rule: "c20-stop", Sub: "exit-early", Scan: rec.Index, Life: rec.Life, Group: exitGroup, Detail: d})
+			s.violate(Violation{Property: "C12", Rule: "c12-cross-group-exit", Scan: rec.Index, Life: rec.Life, Group: exitGroup, Detail: d + ": failures of other groups were charged to this one and the later groups were never processed"})
+		default:
 			st.Probe("third consecutive fleet failure ends the lifetime")
 		}
 		return
